@@ -267,11 +267,12 @@ package segment
 //@   ensures[C05.tail-found] !(idx < w.info.BaseIndex || idx < w.info.MinIndex || idx > w.commitIdx) ==> result1 == nil && result0 == av(w.offsets)[int(idx - w.info.BaseIndex)]
 
 //@ func (*Writer).initEmpty
-//@   props C01 C02 C09
+//@   props C01 C02 C03 C09
 //@   requires w.info.BaseIndex >= 1 && w.info.BaseIndex <= 0x7fffffff00000000 && w.wf != nil
 //@   assigns w.writer.writeOffset, w.writer.commitBuf, w.writer.crc, w.writer.indexStart, w.offsets, w.writer.commitBuf[0:cap(w.writer.commitBuf)]
 //@   ensures result == nil
-//@   ensures[C09.init-header] len(w.writer.commitBuf) == 32 && w.writer.writeOffset == 0 && len(av(w.offsets)) == 0 && w.writer.indexStart == 0
+//@   ensures[C03.init-unsealed] w.writer.indexStart == 0
+//@   ensures[C09.init-header] len(w.writer.commitBuf) == 32 && w.writer.writeOffset == 0 && len(av(w.offsets)) == 0
 //@      && LE32(w.writer.commitBuf, 0) == 0x58eb6b0d && w.writer.commitBuf[4] == 0 && w.writer.commitBuf[5] == 0 && w.writer.commitBuf[6] == 0 && w.writer.commitBuf[7] == 0
 //@      && LE64(w.writer.commitBuf, 8) == w.info.BaseIndex && LE64(w.writer.commitBuf, 16) == w.info.ID && LE64(w.writer.commitBuf, 24) == w.info.Codec
 //@   ensures[C09.init-crc] w.writer.crc == crc(0, w.writer.commitBuf, 0, 32)
